@@ -48,6 +48,9 @@ pub enum Item {
     Messy(Ev),
     /// hostile but well-shaped plugin trigger (error paths of the decoders)
     Proto(crate::props::proto::PItem),
+    /// CAN frames as the ASC converter delivers them, for the channel described by /verif/data/can_fibex/can1.xml:
+    /// (bus mapping line present, frames: (id selector, data))
+    CanAsc(bool, Vec<(u8, Vec<u8>)>),
 }
 
 struct Enc(Vec<u8>, u8);
@@ -172,6 +175,23 @@ fn expand(items: &[Item]) -> Vec<(DltMessage, bool)> {
             Item::Messy(e) => {
                 out.push((build_messy(std::slice::from_ref(e)).pop().unwrap(), false));
             }
+            Item::CanAsc(mapping, frames) => {
+                let mut text = String::from("date Tue Apr 12 08:55:37 AM 2022\nbase hex timestamps absolute\n");
+                if *mapping {
+                    text.push_str("//BusMapping: CAN 1 = CAN1\n");
+                }
+                for (k, (id, data)) in frames.iter().enumerate() {
+                    let ids = ["123", "7ff", "18fef100x", "200", "300", "555", "0"];
+                    let hex: Vec<String> = data.iter().map(|b| format!("{:02x}", b)).collect();
+                    // (the converter takes the data bytes only if something follows them on the line)
+                    text.push_str(&format!("{}.{:06} 1 {} Rx d {} {} Length = 0 BitCount = 0\n", 1 + k / 1000, (k % 1000) * 1000, ids[*id as usize % ids.len()], data.len(), hex.join(" ")));
+                }
+                let it = adlt::utils::get_dlt_message_iterator("asc", 0, std::io::Cursor::new(text.into_bytes()), 4243 + xi as u32, None, None, None);
+                for mut m in it {
+                    m.lifecycle = 1;
+                    out.push((m, false));
+                }
+            }
             Item::Proto(p) => {
                 out.extend(crate::props::proto::build(std::slice::from_ref(p)));
             }
@@ -190,7 +210,7 @@ fn mk_plugin(k: usize, keep_flda: bool) -> Option<Box<dyn Plugin + Send>> {
     let cfg = match k {
         0 => serde_json::json!({"name":"NonVerbose","fibexDir":repo_tests()}),
         1 => serde_json::json!({"name":"SomeIp","fibexDir":repo_tests()}),
-        2 => serde_json::json!({"name":"CAN","fibexDir":repo_tests()}),
+        2 => serde_json::json!({"name":"CAN","fibexDir":crate::chain::can_fibex_dir()}),
         3 => serde_json::json!({"name":"Muniic","jsonDir":format!("{}/muniic", repo_tests())}),
         4 => serde_json::from_str(&std::fs::read_to_string(format!("{}/rewrite.cfg", repo_tests())).ok()?).ok()?,
         _ => serde_json::json!({"name":"FileTransfer","allowSave":false,"keepFLDA":keep_flda}),
@@ -268,14 +288,16 @@ fn decoders(v: &Case, rep: &mut Rep) -> Result<(), String> {
         if o.payload_text != e.payload_text {
             decoded += 1;
             let ctid = e.ctid().map(|c| *c.as_buf());
-            if ctid == Some(*b"TC\0\0") {
+            if e.mstp() == DltMessageType::NwTrace(DltMessageNwType::Can) {
+                rep.label("can_text");
+                rep.label_if(o.payload_text.as_deref().map_or(false, |t| t.contains("F_Engine") || t.contains("F_Max") || t.contains("F_Ext") || t.contains("F_Mux")), "can_frame_decoded");
+            } else if ctid == Some(*b"TC\0\0") {
                 rep.label("someip_text");
             } else if ctid == Some(*b"MMSG") {
                 rep.label("muniic_text");
             } else if ctid == Some(*b"JOUR") {
                 rep.label("rewrite_text");
-            } else if e.mstp() == DltMessageType::NwTrace(DltMessageNwType::Can) {
-                rep.label("can_text");
+
             } else if !e.is_verbose() {
                 rep.label("nonverbose_text");
             }
@@ -489,14 +511,15 @@ pub fn def(tier: Tier) -> PropertyDef {
         1 => xfer.prop_map(Item::Transfer),
         3 => ev(3).prop_map(Item::Messy),
         5 => crate::props::proto::pitem().prop_map(Item::Proto),
+        2 => (prop::bool::weighted(0.7), prop::collection::vec((0u8..7, prop_oneof![3 => Just(vec![0x2a, 0xfc, 0xe6, 0xd5, 0xfe, 0x0c, 0xa0, 0x05]), 3 => prop::collection::vec(any::<u8>(), 8), 2 => prop::collection::vec(any::<u8>(), 0..12)]), 1..8)).prop_map(|(m, f)| Item::CanAsc(m, f)),
     ];
     let case = (prop::collection::vec(0u8..6, 0..7), any::<bool>(), prop::collection::vec(item, 1..25));
     PropertyDef {
         id: "C19",
         rule: "streams mixing messages from the repository example files (dlt, asc/CAN), trigger shapes (non-verbose ids of tests/non_verbose*.xml incl. too short payloads and unknown ECU, SOME/IP service/method ids of tests/fibex1.xml, Muniic 13-argument messages, SYS/JOUR lines for tests/rewrite.cfg, FLST/FLDA/FLFI transfers) and arbitrary traffic, through plugins_process_msgs with every subset/order of {NonVerbose, SomeIp, CAN, Muniic, Rewrite, FileTransfer(keepFLDA on/off)} built by factory::get_plugin from the repository configs; oracle: output = input minus FLDA when configured; index, reception time, ECU, payload, lifecycle, standard header, existing extended header untouched; timestamp only with Rewrite. Anonymise: populations of 1..8 ECUs x up to 40 APIDs/CTIDs; mapping function + injective, times untouched, detector on original and anonymised trace gives the same partition, starts, ends, counts. Non-trivial: >=1 message text decoded and >=2 plugins; anonymise: >=2 ECUs and >=2 lifecycles.",
-        assumptions: vec!["plugins are configured from /repo/tests (fibex1.xml, non_verbose*.xml, muniic, rewrite.cfg); the repository FIBEX describes no CAN channel, so for the CAN plugin only the pass-through (nothing touched) behaviour is reachable", "control responses are not part of the anonymise stream (their payload is rewritten on purpose)"],
+        assumptions: vec!["plugins are configured from /repo/tests (fibex1.xml, non_verbose*.xml, muniic, rewrite.cfg); the repository FIBEX describes no CAN channel: the CAN plugin is configured with /verif/data/can_fibex/can1.xml (one channel, 5 frames: odd-sized signed/unsigned signals in both byte orders, float, text table, multiplexed PDU, a byte field that cannot be decoded) and fed with frames produced by the ASC converter", "control responses are not part of the anonymise stream (their payload is rewritten on purpose)"],
         subs: vec![
-            sub("decoder_plugins", tier.pick(150_000, 2_000_000), case, decoders).rates(&[("text_decoded", 0.3), ("ge2_plugins", 0.5), ("flda_dropped", 0.02), ("ext_header_filled", 0.03), ("timestamp_rewritten", 0.03), ("someip_text", 0.02), ("muniic_text", 0.02), ("nonverbose_text", 0.05), ("rewrite_text", 0.03), ("hostile_trigger", 0.5)]).shrink_iters(300).boxed(),
+            sub("decoder_plugins", tier.pick(150_000, 2_000_000), case, decoders).rates(&[("text_decoded", 0.3), ("ge2_plugins", 0.5), ("flda_dropped", 0.02), ("ext_header_filled", 0.03), ("timestamp_rewritten", 0.03), ("someip_text", 0.02), ("muniic_text", 0.02), ("nonverbose_text", 0.05), ("rewrite_text", 0.03), ("hostile_trigger", 0.5), ("can_frame_decoded", 0.03)]).shrink_iters(300).boxed(),
             sub("anonymise", tier.pick(150_000, 2_000_000), prop::collection::vec(aev(3, 4), 1..80), anonymise).rates(&[("ge2_ecus", 0.5), ("gt3_lifecycles", 0.3), ("msg_without_ext_header", 0.3)]).boxed(),
             crate::props::binsubs::c19_sub(tier),
             sub("anonymise_many_ids", tier.pick(8_000, 100_000), prop::collection::vec(aev(8, 40), 50..400), anonymise).boxed(),
